@@ -605,6 +605,9 @@ func (h *hist) deliverValset() {
 		return
 	}
 	m := all[h.r.Intn(len(all))]
+	if h.r.Intn(3) == 0 && h.deliverValsetAttested(m) {
+		return
+	}
 	h.rec.Op(map[string]any{"op": "deliver-valset", "chain": m.Chain, "valset": m.Valset.ValsetID, "h": h.c.Height})
 	if err := h.c.App.ValsetKeeper.SetSnapshotOnChain(ctx, m.Valset.ValsetID, m.Chain); err != nil {
 		h.rec.Count("op_deliver_valset_rejected", 1)
@@ -613,6 +616,61 @@ func (h *hist) deliverValset() {
 	_ = h.c.App.ConsensusKeeper.DeleteJob(ctx, world.TurnstoneQueue(m.Chain), m.MsgID)
 	h.rec.Count("op_deliver_valset", 1)
 	h.afterDirect(fmt.Sprintf("after SetSnapshotOnChain(%d,%s)", m.Valset.ValsetID, m.Chain))
+}
+
+// deliverValsetAttested: the REAL life cycle of a queued UpdateValset with honest pigeons
+// (world.DeliverMessage: gas estimates, signatures, relay with a really signed remote tx, evidence
+// by all, attestation in the consensus end-blocker -> attest_update_valset.go -> SetSnapshotOnChain).
+// Takes ~5 blocks, therefore only started when no build height is near; the oracles run over the
+// result afterwards (every stored id is re-read, so the activation is seen).
+func (h *hist) deliverValsetAttested(m sentValset) bool {
+	next := h.c.Height + 1
+	if next%50 == 0 || next%50 > 40 || h.c.PendingCount() > 0 {
+		return false // (txs already queued for the next block would be swallowed by the helper's blocks)
+	}
+	ctx := h.c.Ctx()
+	cur, err := h.c.App.ValsetKeeper.GetCurrentSnapshot(ctx)
+	if err != nil || cur == nil {
+		return false
+	}
+	// pigeons: members of the current snapshot that are still bonded and unjailed
+	var pigeons []*chain.Account
+	have := new(big.Int)
+	for _, v := range cur.Validators {
+		vi := h.byHex[hex.EncodeToString(v.Address)]
+		if vi == nil {
+			continue
+		}
+		if sv, ok := h.stakingVal(vi); ok && !sv.Jailed && sv.Status == stakingtypes.Bonded && len(accountsOn(&v, m.Chain)) == 1 {
+			pigeons = append(pigeons, vi.Acct)
+			have.Add(have, v.ShareCount.BigInt())
+		}
+	}
+	// need a comfortable 2/3 of the current snapshot
+	if new(big.Int).Mul(have, big.NewInt(4)).Cmp(new(big.Int).Mul(cur.TotalShares.BigInt(), big.NewInt(3))) < 0 {
+		return false
+	}
+	h.rec.Op(map[string]any{"op": "deliver-valset-attested", "chain": m.Chain, "valset": m.Valset.ValsetID, "msg": m.MsgID, "h": h.c.Height})
+	before := h.c.Height
+	_, derr := func() (rtx *world.RemoteTx, err error) {
+		defer func() {
+			if e := recover(); e != nil {
+				err = fmt.Errorf("panic: %v", e)
+			}
+		}()
+		return world.DeliverMessage(h.c, pigeons, m.Chain, h.known[m.Chain], m.MsgID, 1)
+	}()
+	h.rec.Count("blocks", h.c.Height-before)
+	if derr != nil {
+		h.rec.Count("op_deliver_valset_attested_rejected", 1)
+		if h.ops < 0 {
+			fmt.Println("attested delivery:", derr)
+		}
+	} else {
+		h.rec.Count("op_deliver_valset_attested", 1)
+	}
+	h.observe(h.c.Ctx(), nil, fmt.Sprintf("after attested delivery of UpdateValset %d to %s (blocks %d-%d)", m.Valset.ValsetID, m.Chain, before+1, h.c.Height), true)
+	return true
 }
 
 // first deployment on a chain without snapshot: the upload attestation marks the CURRENT snapshot live
